@@ -54,3 +54,5 @@ def run(tier, seed, fold):
         if have < v:
             fold.broken.append("coverage floor (part a) not met: %s=%d < %d" % (k, have, v))
     fold.count("engines_run", 2)
+    if tier == "thorough":
+        driver.miri_run("C15", "spanning", seed, fold, procs=12, ops=400)
